@@ -277,7 +277,7 @@ def r11_python(chk):
         calls = [c for c in pyflow.calls_in(fn) if getattr(c.func, 'id', '') == kname]
         chk.need(len(calls) == 1, '%s.%s: expected one %s call' % (cls, meth, kname))
         mp, probs = bind(calls[0], Sig(u3.func(kname)))
-        got = {p: norm(a) for p, a in mp.items()}
+        got = pyrules.bound_texts(fn, mp)
         chk.ob('R11.4', not probs and got == exp, PANEL, '%s.%s' % (cls, meth), '%s call binding' % kname, line=calls[0].lineno,
                expected=exp, got=got, detail='; '.join(probs), sample='%s.%s -> %s%s' % (cls, meth, kname, got))
     # Panel.stress forwards its options to strain
@@ -313,7 +313,7 @@ def r11_python(chk):
             ok = len(calls) == 1
             if ok:
                 mp, probs = bind(calls[0], Sig(u3.func(kname)))
-                got = {p: norm(a) for p, a in mp.items()}
+                got = pyrules.bound_texts(fn, mp)
                 cdefs = [norm(n.value) for n in ast.walk(lp) if isinstance(n, ast.Assign) and norm(n.targets[0]) == got.get('c')]
                 want_slice = 'c[%s.col_start:%s.col_end]' % (pv, pv)
                 ok = not probs and got.get('p') == pv and cdefs[:1] == [want_slice] and \
